@@ -227,8 +227,28 @@ struct IceTransportRunner {
     state_rx: watch::Receiver<IceTransportState>,
 }
 
+/// Releases whatever the gatherer still holds once the runner is gone.
+///
+/// `stop()` empties the gatherer's socket lists, but a gather step that is
+/// being polled on another thread at that moment can bind a socket and push
+/// it *after* the lists were emptied. The runner is the only task that drives
+/// the gatherer, so when it ends (normally, or because its task was aborted)
+/// nothing can be added any more and a closed transport can let go for good.
+/// Declared first in `run()` so that it is dropped after the futures it
+/// cleans up behind.
+struct ReleaseOnRunnerExit(Arc<IceTransportInner>);
+
+impl Drop for ReleaseOnRunnerExit {
+    fn drop(&mut self) {
+        if *self.0.state.borrow() == IceTransportState::Closed {
+            self.0.gatherer.release_sockets();
+        }
+    }
+}
+
 impl IceTransportRunner {
     async fn run(mut self) {
+        let _release = ReleaseOnRunnerExit(self.inner.clone());
         let mut interval = tokio::time::interval_at(
             tokio::time::Instant::now() + Duration::from_secs(1),
             Duration::from_secs(1),
@@ -1526,15 +1546,7 @@ impl IceTransport {
         let _ = self.inner.selected_rtcp_socket.send(None);
         let _ = self.inner.selected_pair_notifier.send(None);
         *self.inner.selected_pair.lock() = None;
-        self.inner.gatherer.sockets.lock().clear();
-        self.inner.gatherer.tcp_listeners.lock().clear();
-        self.inner.gatherer.tcp_streams.lock().clear();
-        self.inner.gatherer.shared_tcp_regs.lock().clear();
-        self.inner.gatherer.shared_udp_regs.lock().clear();
-        self.inner.gatherer.turn_clients.lock().clear();
-        // Drop the shared-UDP handle so the demux port's per-session state is
-        // released immediately instead of waiting for Arc<IceTransportInner>.
-        *self.inner.gatherer.shared_udp_socket.lock() = None;
+        self.inner.gatherer.release_sockets();
     }
 
     /// Force the ICE transport into a specific state (test-only).
@@ -3623,6 +3635,20 @@ impl IceGatherer {
 
     fn local_candidates(&self) -> Vec<IceCandidate> {
         self.local_candidates.lock().clone()
+    }
+
+    /// Let go of every socket, listener, TURN client and shared-port
+    /// registration the gatherer holds.
+    fn release_sockets(&self) {
+        self.sockets.lock().clear();
+        self.tcp_listeners.lock().clear();
+        self.tcp_streams.lock().clear();
+        self.shared_tcp_regs.lock().clear();
+        self.shared_udp_regs.lock().clear();
+        self.turn_clients.lock().clear();
+        // Drop the shared-UDP handle so the demux port's per-session state is
+        // released immediately instead of waiting for Arc<IceTransportInner>.
+        *self.shared_udp_socket.lock() = None;
     }
 
     async fn bind_socket(&self, ip: IpAddr) -> Result<UdpSocket> {
